@@ -348,6 +348,60 @@ impl Encodings {
                 } else if base_of(enc) != "st" {
                     return Err(Failure::new(format!("{}/cnf-unsatisfiable-although-the-family-is-never-empty", sig), format!("attacks {:?}", g.att)));
                 }
+                // (2) members of the family from an independent reference encoding, made diverse by the model
+                // chooser and blocking clauses: each must be a model of the CNF (checked below with the others)
+                {
+                    let seed = c.probes.first().copied().unwrap_or(1) ^ (n as u64) << 20;
+                    let mut r = satwrap::choosy(seed, (seed % 3) as u8, 48)();
+                    let x = |i: usize| (i + 1) as isize;
+                    let p = |i: usize| (n + 1 + i) as isize;
+                    let attackers: Vec<Vec<usize>> = {
+                        let mut v = vec![vec![]; n];
+                        for (a, b) in &g.att {
+                            if !v[*b as usize].contains(&(*a as usize)) {
+                                v[*b as usize].push(*a as usize);
+                            }
+                        }
+                        v
+                    };
+                    let base = base_of(enc);
+                    for a in 0..n {
+                        let mut long = vec![Literal::from(-p(a))];
+                        for b in &attackers[a] {
+                            long.push(Literal::from(x(*b)));
+                            r.add_clause(vec![Literal::from(-x(*b)), Literal::from(p(a))]);
+                        }
+                        r.add_clause(long);
+                        r.add_clause(vec![Literal::from(-x(a)), Literal::from(-p(a))]);
+                        if base == "adm" || base == "co" {
+                            for b in &attackers[a] {
+                                r.add_clause(vec![Literal::from(-x(a)), Literal::from(p(*b))]);
+                            }
+                        }
+                        if base == "co" {
+                            let mut cl = vec![Literal::from(x(a))];
+                            cl.extend(attackers[a].iter().map(|b| Literal::from(-p(*b))));
+                            r.add_clause(cl);
+                        }
+                        if base == "st" {
+                            r.add_clause(vec![Literal::from(x(a)), Literal::from(p(a))]);
+                        }
+                    }
+                    for _ in 0..12 {
+                        match r.solve() {
+                            SolvingResult::Satisfiable(m) => {
+                                let member: Vec<bool> = (0..n).map(|i| m.value_of(i + 1) == Some(true)).collect();
+                                if !in_family(&member) {
+                                    std::panic::panic_any(crate::engine::Inconclusive(format!("C10 reference encoding of the {} family produced a non-member on {:?}", base, g.att)));
+                                }
+                                r.add_clause((0..n).map(|i| Literal::from(if member[i] { -x(i) } else { x(i) })).collect());
+                                sets.push(member);
+                                rec.count("family-members-from-the-reference-encoding-probed", 1);
+                            }
+                            _ => break,
+                        }
+                    }
+                }
                 for (k, seed) in c.probes.iter().enumerate() {
                     // subsets of varying density derived from the generated words
                     let mut x = *seed | 1;
